@@ -933,7 +933,6 @@ coap_oscore_decrypt_pdu(coap_session_t *session,
   }
 
   if (coap_request) {
-    uint64_t incoming_seq;
     /*
      * 8.2 Step 2
      * Decompress COSE object
@@ -1039,7 +1038,11 @@ coap_oscore_decrypt_pdu(coap_session_t *session,
      * Requires in COSE object as appropriate
      *   partial_iv (as received)
      */
-    if (rcp_ctx->initial_state == 0 &&
+    /*
+     * With Appendix B.1.2 the window is set up by the request that carries
+     * the Echo value (see below), otherwise by the first request.
+     */
+    if ((rcp_ctx->initial_state == 0 || !osc_ctx->rfc8613_b_1_2) &&
         !oscore_validate_sender_seq(rcp_ctx, cose)) {
       coap_log_warn("OSCORE: Replayed or old message\n");
       build_and_send_error_pdu(session,
@@ -1051,10 +1054,6 @@ coap_oscore_decrypt_pdu(coap_session_t *session,
                                0);
       goto error_no_ack;
     }
-
-    incoming_seq =
-        coap_decode_var_bytes8(cose->partial_iv.s, cose->partial_iv.length);
-    rcp_ctx->last_seq = incoming_seq;
   } else { /* !coap_request */
     /*
      * 8.4 Step 2
